@@ -7,7 +7,7 @@
      result_of         Ok(false) / Ok(true)+buf / Err(RoundTrip) -> Unchanged / Changed b / Die; None = panic or hang
      pipe_result       the bytes read back from the pipeline, or which round-trip error; None = panic or hang *)
 From GixV.Base Require Import Bytes BytesFacts Outcome.
-From GixV.C43 Require Import Model Spec ProofsEol ProofsWt ProofsPipe ProofsIdent ProofsCount.
+From GixV.C43 Require Import Model Spec ProofsEol ProofsWt ProofsPipe ProofsIdent ProofsCount ProofsApply.
 Local Open Scope N_scope.
 
 (* the statistics gathered over any byte string are git's gather_stats, including the trailing ^Z rule *)
@@ -83,6 +83,26 @@ Theorem to_worktree_is_git_except_known : forall hex src a c,
   pipe_result (pipeline_to_worktree hex src a c) = Some (inl (convert_to_working_tree (cfg_to_git c) a hex src)).
 Proof. exact ProofsPipe.to_worktree_is_git_except_known. Qed.
 
+(* The two known classes are ALL that separates gitoxide from git in the to-worktree direction:
+   [ident_to_worktree_with suffix] / [convert_to_working_tree_with suffix] are git's functions with the text written
+   after the blob id as a parameter (git itself is suffix = " $": the two lemmas below hold by reflexivity).
+   On every input without an already expanded keyword (`$Id:` does not occur: class ident-expanded-id-kept excluded)
+   ident::apply and the whole pipeline compute git's algorithm with suffix "$" (class ident-expansion-without-space). *)
+Theorem git_is_the_space_instance : forall g at_ hex src,
+  convert_to_working_tree g at_ hex src = convert_to_working_tree_with (bs " $") g at_ hex src.
+Proof. exact git_worktree_is_with_space. Qed.
+
+Theorem ident_apply_is_git_modulo_format : forall hex src,
+  find_sub ID_OPEN src = None ->
+  apply_stage hex src = Some (inl (ident_to_worktree_with (bs "$") hex src true)).
+Proof. exact ProofsApply.ident_apply_is_git_modulo_format. Qed.
+
+Theorem to_worktree_is_git_modulo_format : forall hex src a c,
+  find_sub ID_OPEN src = None ->
+  pipe_result (pipeline_to_worktree hex src a c) =
+  Some (inl (convert_to_working_tree_with (bs "$") (cfg_to_git c) a hex src)).
+Proof. exact ProofsApply.to_worktree_is_git_modulo_format. Qed.
+
 (* ident::apply returns for every input: no panic, and the loop needs at most length+1 iterations *)
 Theorem ident_apply_total : forall hex src, exists r, ident_apply hex src = Ok r.
 Proof. exact ProofsPipe.ident_apply_total. Qed.
@@ -122,6 +142,14 @@ Example to_git_example :
   pipeline_to_git (bs "$Id: 0123 $" ++ [x0d; x0a] ++ bs "$Id: x" ++ [x0d; x0a] ++ bs "$") a c (Some RtWarn) None
   = Ok (bs "$Id$" ++ [x0a] ++ bs "$Id: x" ++ [x0a] ++ bs "$").
 Proof. vm_compute. reflexivity. Qed.
+
+Example modulo_format_example :
+  let a := {| a_crlf := Unspecified; a_ident := ASet; a_eol := AValue (bs "crlf"); a_text := ASet |} in
+  let c := {| auto_crlf := AcDisabled; cfg_eol := None |} in
+  let src := bs "a $Id$ $Id$" ++ [x0a] in
+  find_sub ID_OPEN src = None /\
+  pipeline_to_worktree (bs "0123") src a c = Ok (bs "a $Id: 0123$ $Id: 0123$" ++ [x0d; x0a]).
+Proof. vm_compute. split; reflexivity. Qed.
 
 Example undo_example :
   ident_undo (bs "a $Id: 0123 $ b $Id:" ++ [x0a] ++ bs "$") = Ok (Some (bs "a $Id$ b $Id:" ++ [x0a] ++ bs "$")).
